@@ -284,6 +284,31 @@ theorem put_cells (op : PutOp) (bpp : Nat) (pg : Page) (x0 y0 : Int) (s : Rows) 
         op.cell bpp (pg x y) (cellAt s (x - x0).toNat (y - y0).toNat)
       else pg x y := rfl
 
+/-! ### coordinate forms -/
+
+/-- a STEP second corner (LINE, LINE B/BF, GET) is an offset from the first corner, wherever the previous
+    statement left the graphics cursor, and the cursor ends on the second corner -/
+theorem step_second_corner_relative_to_first (last : Int × Int) (x0 y0 dx dy : Int) (st : Bool) (fx fy : Int) :
+    getCorners last x0 y0 ⟨true, dx, dy⟩ = ((x0, y0), (x0 + dx, y0 + dy), (x0 + dx, y0 + dy)) ∧
+    lineCorners last (some ⟨false, x0, y0⟩) ⟨true, dx, dy⟩ = ((x0, y0), (x0 + dx, y0 + dy), (x0 + dx, y0 + dy)) ∧
+    (lineCorners last (some ⟨st, fx, fy⟩) ⟨true, dx, dy⟩).2.1 =
+      ((lineCorners last (some ⟨st, fx, fy⟩) ⟨true, dx, dy⟩).1.1 + dx,
+       (lineCorners last (some ⟨st, fx, fy⟩) ⟨true, dx, dy⟩).1.2 + dy) := by
+  refine ⟨rfl, rfl, rfl⟩
+
+/-- an omitted first corner is the cursor; a STEP first corner or single point is an offset from the cursor -/
+theorem step_first_relative_to_cursor (last : Int × Int) (dx dy x1 y1 : Int) :
+    (lineCorners last none ⟨false, x1, y1⟩).1 = last ∧
+    (lineCorners last (some ⟨true, dx, dy⟩) ⟨false, x1, y1⟩).1 = (last.1 + dx, last.2 + dy) ∧
+    pointStmt last ⟨true, dx, dy⟩ = ((last.1 + dx, last.2 + dy), (last.1 + dx, last.2 + dy)) := by
+  refine ⟨rfl, rfl, rfl⟩
+
+/-- without the store of the first corner between the two corners of GET the rectangle depends on the
+    previous cursor (the seeded change C31e): cursor (2,3), `GET (10,10)-STEP(7,5)` fetches up to (9,8) -/
+theorem get_without_cursor_store_counterexample :
+    (getCornersNoStore (2, 3) 10 10 ⟨true, 7, 5⟩).2.1 = (9, 8) ∧
+    (getCorners (2, 3) 10 10 ⟨true, 7, 5⟩).2.1 = (17, 15) := by decide
+
 /-! ### the hypotheses are satisfiable -/
 
 example : (Builder.packed 2).admits [[1, 2, 3], [0, 3, 1]] 3 := by
